@@ -171,16 +171,33 @@ func (v *SortValue) Less(compareValue *SortValue) ternary.Value {
 			}
 			return ternary.ConvertFromBool(v.Integer < compareValue.Integer)
 		case FloatType:
-			if v.Float == compareValue.Float {
-				return ternary.UNKNOWN
+			if math.IsNaN(compareValue.Float) {
+				return ternary.FALSE
 			}
-			return ternary.ConvertFromBool(v.Float < compareValue.Float)
+			switch compareIntegerWithFloat(v.Integer, compareValue.Float) {
+			case 0:
+				return ternary.UNKNOWN
+			case -1:
+				return ternary.TRUE
+			}
+			return ternary.FALSE
 		case StringType:
 			return ternary.ConvertFromBool(v.String < compareValue.String)
 		}
 	case FloatType:
 		switch compareValue.Type {
-		case IntegerType, FloatType:
+		case IntegerType:
+			if math.IsNaN(v.Float) {
+				return ternary.FALSE
+			}
+			switch compareIntegerWithFloat(compareValue.Integer, v.Float) {
+			case 0:
+				return ternary.UNKNOWN
+			case 1:
+				return ternary.TRUE
+			}
+			return ternary.FALSE
+		case FloatType:
 			if math.IsNaN(v.Float) || math.IsNaN(compareValue.Float) {
 				if math.IsNaN(v.Float) && math.IsNaN(compareValue.Float) {
 					return ternary.UNKNOWN
@@ -234,7 +251,7 @@ func (v *SortValue) EquivalentTo(compareValue *SortValue) bool {
 		case IntegerType, BooleanType:
 			return v.Integer == compareValue.Integer
 		case FloatType:
-			return v.Float == compareValue.Float
+			return !math.IsNaN(compareValue.Float) && compareIntegerWithFloat(v.Integer, compareValue.Float) == 0
 		}
 	case FloatType:
 		switch compareValue.Type {
@@ -244,7 +261,7 @@ func (v *SortValue) EquivalentTo(compareValue *SortValue) bool {
 			}
 			return v.Float == compareValue.Float
 		case IntegerType:
-			return v.Float == compareValue.Float
+			return !math.IsNaN(v.Float) && compareIntegerWithFloat(compareValue.Integer, v.Float) == 0
 		}
 	case DatetimeType:
 		switch compareValue.Type {
@@ -266,4 +283,28 @@ func (v *SortValue) EquivalentTo(compareValue *SortValue) bool {
 	}
 
 	return false
+}
+
+// compareIntegerWithFloat compares an integer with a float that is not NaN by their exact values and
+// returns -1, 0 or 1. The conversion of the integer to a float would round an integer of more than 53 bits,
+// and two different integers would then be equivalent to the same float without being equivalent to each other.
+func compareIntegerWithFloat(i int64, f float64) int {
+	if 9223372036854775808.0 <= f {
+		return -1
+	}
+	if f < -9223372036854775808.0 {
+		return 1
+	}
+
+	floor := math.Floor(f)
+	n := int64(floor)
+	switch {
+	case i < n:
+		return -1
+	case n < i:
+		return 1
+	case floor < f:
+		return -1
+	}
+	return 0
 }
